@@ -219,6 +219,9 @@ func isnan(f float64) bool { return f != f }
 func feq(a, b float64) bool { return a == b }
 func fsame(a, b float64) bool { return math.Float64bits(a) == math.Float64bits(b) || (a != a && b != b) }
 func eqv[T any](a, b T) bool { panic("spec-only") }
+func atoiOK(s string) bool { panic("spec-only") }
+func parseFloatOK(s string) bool { panic("spec-only") }
+func field[T any](x any, name string) T { panic("spec-only") }
 func fst2[A, B any](a A, b B) A { return a }
 func snd2[A, B any](a A, b B) B { return b }
 `
